@@ -334,6 +334,8 @@ func (d deferRec) key() string {
 
 // State is the abstract state of one frame.
 type State struct {
+	// Entry is the heap with which the frame was entered (shared, read-only).
+	Entry     Heap
 	Regs      map[ssa.Value]AbsVal
 	Heap      Heap
 	Defers    []deferRec
@@ -363,7 +365,7 @@ func (s *State) Reg(v ssa.Value) AbsVal {
 }
 
 func (s *State) clone() *State {
-	n := &State{Regs: make(map[ssa.Value]AbsVal, len(s.Regs)), Heap: s.Heap.clone(), Panicking: s.Panicking}
+	n := &State{Entry: s.Entry, Regs: make(map[ssa.Value]AbsVal, len(s.Regs)), Heap: s.Heap.clone(), Panicking: s.Panicking}
 	for k, v := range s.Regs {
 		n.Regs[k] = v
 	}
@@ -530,7 +532,7 @@ func (it *Interp) analyzeB(fn *ssa.Function, args, bindings []AbsVal, heap Heap,
 		it.undecided("function without body reached as in-module: %s", fn)
 		return sum
 	}
-	st := &State{Regs: map[ssa.Value]AbsVal{}, Heap: heap.clone()}
+	st := &State{Entry: heap, Regs: map[ssa.Value]AbsVal{}, Heap: heap.clone()}
 	for i, p := range fn.Params {
 		if i < len(args) {
 			if !isTop(args[i]) {
@@ -616,7 +618,7 @@ func (it *Interp) analyzeB(fn *ssa.Function, args, bindings []AbsVal, heap Heap,
 			d := st.Defers[len(st.Defers)-1]
 			st.Defers = st.Defers[:len(st.Defers)-1]
 			for _, r := range it.callDeferred(fn, st, d, st.Panicking) {
-				ns := &State{Regs: st.Regs, Heap: r.heap, Defers: append([]deferRec(nil), st.Defers...), Panicking: st.Panicking}
+				ns := &State{Entry: st.Entry, Regs: st.Regs, Heap: r.heap, Defers: append([]deferRec(nil), st.Defers...), Panicking: st.Panicking}
 				if r.recovered {
 					ns.Panicking = false
 				}
@@ -835,7 +837,7 @@ func (it *Interp) execBlock(fn *ssa.Function, sum *Summary, w work, panicCtx boo
 			rest := st.Defers[:len(st.Defers)-1]
 			rs := it.callDeferred(fn, st, d, false)
 			for _, r := range rs {
-				ns := &State{Regs: copyRegs(st.Regs), Heap: r.heap, Defers: append([]deferRec(nil), rest...)}
+				ns := &State{Entry: st.Entry, Regs: copyRegs(st.Regs), Heap: r.heap, Defers: append([]deferRec(nil), rest...)}
 				if r.exc {
 					ns.Panicking = true
 					*wl = append(*wl, work{blk: nil, st: ns})
@@ -852,7 +854,7 @@ func (it *Interp) execBlock(fn *ssa.Function, sum *Summary, w work, panicCtx boo
 				return // no outcome yet (recursion bottom)
 			}
 			for _, r := range rs {
-				ns := &State{Regs: copyRegs(st.Regs), Heap: r.heap, Defers: append([]deferRec(nil), st.Defers...)}
+				ns := &State{Entry: st.Entry, Regs: copyRegs(st.Regs), Heap: r.heap, Defers: append([]deferRec(nil), st.Defers...)}
 				if r.exc {
 					ns.Panicking = true
 					*wl = append(*wl, work{blk: nil, st: ns})
